@@ -416,3 +416,8 @@ def check(program: Program, run: Run) -> None:
         if f7.cls is not None and (f7.cls.is_subclass_of(selc) or f7.cls is selc):
             run.finding(f"C11/memo-inherited:{f7.qualname}", f"{f7.qualname} is a {deco}: the value computed when an ancestor was rendered (one source, no qualification needed) is inherited by every builder copied from it, "
                         "so a join / second FROM item added afterwards does not turn qualification on", where=f7.loc(), rule="R1")
+
+    # ---- the mechanism keeps no state between renderings (shared rule, see families.inherit_history_dependence)
+    from ..families import inherit_history_dependence
+    run.rule("history: no function of this property's mechanism writes object / class / parameterizer state while rendering or memoises on a copied object (inherited from C02 and C01)")
+    inherit_history_dependence(program, run, "C11", r"^Term\.(fields_|tables_|find_)|\._validate_table|^(Field|Star)\.get_sql", "the foreign-table decision reads a field set computed for an earlier version of the criterion")
